@@ -225,5 +225,53 @@ def bits : LB → Nat
 /-- `ProspectiveSize::prospective_size` -/
 def prospectiveSize (a : LB) : Nat := a.bits / 8
 
+/-! ### bitwise operations (two's complement on `Int`; `num-bigint`'s `BitAnd`/`BitOr`/`BitXor` for `BigInt` and Rust's
+`&`, `|`, `^` on `i64` both are two's-complement operations).  `Int.negSucc n` = `-(n+1)` = `~n`. -/
+
+/-- two's-complement AND -/
+def iland : Int → Int → Int
+  | .ofNat m, .ofNat n => Int.ofNat (m &&& n)
+  | .ofNat m, .negSucc n => Int.ofNat (m ^^^ (m &&& n))
+  | .negSucc m, .ofNat n => Int.ofNat (n ^^^ (n &&& m))
+  | .negSucc m, .negSucc n => .negSucc (m ||| n)
+
+/-- two's-complement OR -/
+def ilor : Int → Int → Int
+  | .ofNat m, .ofNat n => Int.ofNat (m ||| n)
+  | .ofNat m, .negSucc n => .negSucc (n ^^^ (n &&& m))
+  | .negSucc m, .ofNat n => .negSucc (m ^^^ (m &&& n))
+  | .negSucc m, .negSucc n => .negSucc (m &&& n)
+
+/-- two's-complement XOR -/
+def ilxor : Int → Int → Int
+  | .ofNat m, .ofNat n => Int.ofNat (m ^^^ n)
+  | .ofNat m, .negSucc n => .negSucc (m ^^^ n)
+  | .negSucc m, .ofNat n => .negSucc (m ^^^ n)
+  | .negSucc m, .negSucc n => Int.ofNat (m ^^^ n)
+
+/-- `impl BitAnd` (:388) -/
+def bitand (a b : LB) : LB :=
+  match a, b with
+  | short s1, short s2 => short (iland s1 s2)
+  | short s, long b => ofInt (iland b s)
+  | long b, short s => ofInt (iland b s)
+  | long b0, long b1 => ofInt (iland b0 b1)
+
+/-- `impl BitOr` (:402) -/
+def bitor (a b : LB) : LB :=
+  match a, b with
+  | short s1, short s2 => short (ilor s1 s2)
+  | short s, long b => ofInt (ilor b s)
+  | long b, short s => ofInt (ilor b s)
+  | long b0, long b1 => ofInt (ilor b0 b1)
+
+/-- `impl BitXor` (:416) -/
+def bitxor (a b : LB) : LB :=
+  match a, b with
+  | short s1, short s2 => short (ilxor s1 s2)
+  | short s, long b => ofInt (ilxor b s)
+  | long b, short s => ofInt (ilxor b s)
+  | long b0, long b1 => ofInt (ilxor b0 b1)
+
 end LB
 end XrayModel
